@@ -82,7 +82,8 @@ type Boundary struct {
 	OnDone func(ev Event)
 
 	inflight int64
-	inflightBy map[string]*int64 // per instance (see Inflight)
+	inflightBy map[string]*int64 // per instance, calls of container layers only (see Inflight)
+	containers map[string]bool
 	// delays: PRNG-free deterministic jitter: every n-th gated call sleeps d (0 = off)
 	JitterEvery int64
 	JitterDur   time.Duration
@@ -206,6 +207,24 @@ func (b *Boundary) Inflight() int64 {
 	return n
 }
 
+// ContainerLayers names the layers whose gated calls contain other gated calls (the resource manager when its
+// plugins are decorated too). Only those calls of a dead instance are left out of Inflight: a leaf call of a dead
+// instance that is really executing still completes and is waited for, a leaf call that was stopped never counted.
+func (b *Boundary) SetContainerLayers(layers ...string) {
+	b.mu.Lock()
+	b.containers = map[string]bool{}
+	for _, l := range layers {
+		b.containers[l] = true
+	}
+	b.mu.Unlock()
+}
+
+func (b *Boundary) isContainer(layer string) bool {
+	b.mu.Lock()
+	defer b.mu.Unlock()
+	return b.containers[layer]
+}
+
 func (b *Boundary) instCounter(inst string) *int64 {
 	b.mu.Lock()
 	defer b.mu.Unlock()
@@ -326,7 +345,12 @@ func (b *Boundary) Call(inst, layer, op, arg string) (done func(err error), inje
 		hook(ev)
 	}
 	b.gate.RLock()
-	ic := b.instCounter(inst)
+	var ic *int64
+	if b.isContainer(layer) {
+		ic = b.instCounter(inst)
+	} else {
+		ic = new(int64)
+	}
 	atomic.AddInt64(&b.inflight, 1)
 	atomic.AddInt64(ic, 1)
 	if fire == nil || fire.Kind != "crash" {
